@@ -116,13 +116,23 @@ let rec diagnose (path : string) (t : sexp) (j : json) : string option =
   | L (A "sel" :: variants), JObj members ->
     let keys = List.map (fun (k, _) -> string_of_bytes k) members in
     (* the variant sharing most keys explains the failure best *)
-    let tnv = (try (match List.assoc (bytes_of_string "__typename") members with JStr s -> Some (string_of_bytes s) | _ -> None) with Not_found -> None) in
+    (* the concrete type the object claims to be, through whatever key carries __typename *)
+    let tn_keys = List.concat_map (function L (A "v" :: _ :: fields) ->
+        List.filter_map (function L (A "k" :: S k :: _ :: L [A "tn"] :: _) -> Some k | _ -> None) fields | _ -> []) variants in
+    let tnv = List.fold_left (fun acc k -> match acc with Some _ -> acc | None ->
+        (try (match List.assoc (bytes_of_string k) members with JStr s -> Some (string_of_bytes s) | _ -> None) with Not_found -> None)) None tn_keys in
     let score v = (match v with L (A "v" :: L names :: fields) ->
         let fk = List.filter_map (function L (A "k" :: S k :: _) -> Some k | _ -> None) fields in
         let common = List.length (List.filter (fun k -> List.mem k keys) fk) in
         let missing = List.length fk - common and extra = List.length keys - common in
+        let missing_calls = List.length (List.filter (function
+            | L (A "k" :: S k :: _ :: _ :: A tag :: _) -> not (List.mem k keys) && String.length tag >= 5 && String.sub tag 0 5 <> "plain"
+            | _ -> false) fields) in
         let tn_bonus = (match tnv with Some t when List.mem (S t) names -> 1000 | Some _ -> -1000 | None -> 0) in
-        tn_bonus + 4 * common - missing - 2 * extra
+        (* without a type name, a variant all of whose missing keys come from follow-up calls explains an
+           object with dropped call results best *)
+        let call_bonus = if extra = 0 && missing > 0 && missing_calls = missing then 100 else 0 in
+        tn_bonus + call_bonus + 4 * common - missing - 2 * extra
                                 | _ -> -100000) in
     let best = List.fold_left (fun acc v -> match acc with None -> Some v | Some a -> if score v > score a then Some v else acc) None variants in
     (match best with
